@@ -59,7 +59,25 @@ void ir_vp_atomic_begin(void){ __CPROVER_atomic_begin(); }
 void ir_vp_atomic_end(void){ __CPROVER_atomic_end(); }
 #endif
 #ifdef VP_RACE
-const u8 *vp_sh_base; u64 vp_sh_size; u8 vp_sh_w[64]; u8 vp_sh_r[64];
+const u8 *vp_sh_base; u64 vp_sh_size; u8 vp_cur_thr = 1; u32 vp_cur_ls;
+u8 vp_wthr[64], vp_rthr[64]; u32 vp_wls[64], vp_rls[64];
+#else
+u8 vp_cur_thr = 1; u32 vp_cur_ls;
+#endif
+/* pthread mutex: identity -> lock bit; lock/unlock maintain the current logical thread's lockset (sequential runs: never contended) */
+static const void *vp_mtx[8]; static u8 vp_mtx_owner[8];
+static int vp_mtx_id(const void *m){ for (int i = 0; i < 8; i++) { if (vp_mtx[i] == m) return i; if (vp_mtx[i] == 0) { vp_mtx[i] = m; return i; } } __CPROVER_assert(0, "BOUND:more than 8 mutexes"); return 0; }
+#ifdef NEED_ir_pthread_mutex_lock
+u32 ir_pthread_mutex_lock(void *m){ int i = vp_mtx_id(m); __CPROVER_assert(vp_mtx_owner[i] == 0, "TRAP:mutex locked while already held (deadlock in a run-to-completion operation)"); vp_mtx_owner[i] = vp_cur_thr; vp_cur_ls |= (1u << i); return 0; }
+#endif
+#ifdef NEED_ir_pthread_mutex_unlock
+u32 ir_pthread_mutex_unlock(void *m){ int i = vp_mtx_id(m); __CPROVER_assert(vp_mtx_owner[i] == vp_cur_thr, "TRAP:mutex unlocked by a thread that does not hold it"); vp_mtx_owner[i] = 0; vp_cur_ls &= ~(1u << i); return 0; }
+#endif
+#ifdef NEED_ir_vp_thread
+void ir_vp_thread(u32 t){ vp_cur_thr = (u8)t; vp_cur_ls = 0; }
+#endif
+#ifdef NEED_ir___pthread_key_create
+u32 ir___pthread_key_create(void *k, void *d){ return 0; }
 #endif
 #ifdef NEED_ir_vp_shared
 void ir_vp_shared(void *p, u64 n){
